@@ -249,6 +249,19 @@ func (idx *index) get(i int) (pointer, bool) {
 	return v, true
 }
 
+// refresh returns the pointer the index currently holds for the domain of ptr, or ptr
+// itself if the index no longer holds a domain with that exact time range in that file.
+func (idx *index) refresh(ptr pointer) pointer {
+	idx.mu.RLock()
+	defer idx.mu.RUnlock()
+	if i, ok := idx.unprotectedSearch(ptr.TimeRange); ok {
+		if cur := idx.mu.pointers[i]; cur.TimeRange == ptr.TimeRange && cur.fileKey == ptr.fileKey {
+			return cur
+		}
+	}
+	return ptr
+}
+
 func (idx *index) read(f func()) {
 	idx.mu.RLock()
 	f()
